@@ -21,6 +21,7 @@ Qed.
 Section Proofs.
   Variables B S V D H T W E : Type.
   Variable kind_of : B -> kind.
+  Variable guards : kind -> guard_set.
   Variable fees_present : B -> bool.
   Variable expected_calldata : B -> Z -> Z -> V -> list S -> D.
   Variable expected_deploy : B -> D.
@@ -35,6 +36,9 @@ Section Proofs.
 
   Hypothesis D_eqb_true : forall a b, D_eqb a b = true -> a = b.
   Hypothesis H_eqb_refl : forall h, H_eqb h h = true.
+  (** every action type's attester runs all three guards (discharged in Properties/C07.v from
+      the guard lists extracted per attester: Evm/AttestSym.v [code_guards_full]) *)
+  Hypothesis guards_full : forall k, guards k = full_guards.
 
   Notation msg := (msg B S T).
   Notation state := (state B S V H T W).
@@ -42,19 +46,19 @@ Section Proofs.
   Notation op := (op B S T W E).
   Notation verify := (verify B S V D T kind_of fees_present expected_calldata expected_deploy D_eqb).
   Notation match_prefix := (match_prefix S D D_eqb).
-  Notation attest_msg := (attest_msg B S V D H T W E kind_of fees_present expected_calldata expected_deploy D_eqb H_eqb
+  Notation attest_msg := (attest_msg B S V D H T W E kind_of guards fees_present expected_calldata expected_deploy D_eqb H_eqb
                             tx_hash tx_data valset_at compass_present apply_effect on_error_proof).
-  Notation attest := (attest B S V D H T W E kind_of fees_present expected_calldata expected_deploy D_eqb H_eqb
+  Notation attest := (attest B S V D H T W E kind_of guards fees_present expected_calldata expected_deploy D_eqb H_eqb
                         tx_hash tx_data valset_at compass_present apply_effect on_error_proof).
-  Notation step := (step B S V D H T W E kind_of fees_present expected_calldata expected_deploy D_eqb H_eqb
+  Notation step := (step B S V D H T W E kind_of guards fees_present expected_calldata expected_deploy D_eqb H_eqb
                       tx_hash tx_data valset_at compass_present apply_effect on_error_proof).
-  Notation run_from := (run_from B S V D H T W E kind_of fees_present expected_calldata expected_deploy D_eqb H_eqb
+  Notation run_from := (run_from B S V D H T W E kind_of guards fees_present expected_calldata expected_deploy D_eqb H_eqb
                           tx_hash tx_data valset_at compass_present apply_effect on_error_proof).
-  Notation run := (run B S V D H T W E kind_of fees_present expected_calldata expected_deploy D_eqb H_eqb
+  Notation run := (run B S V D H T W E kind_of guards fees_present expected_calldata expected_deploy D_eqb H_eqb
                      tx_hash tx_data valset_at compass_present apply_effect on_error_proof).
-  Notation endblock_ids := (endblock_ids B S V D H T W E kind_of fees_present expected_calldata expected_deploy D_eqb H_eqb
+  Notation endblock_ids := (endblock_ids B S V D H T W E kind_of guards fees_present expected_calldata expected_deploy D_eqb H_eqb
                               tx_hash tx_data valset_at compass_present apply_effect on_error_proof).
-  Notation endblock := (endblock B S V D H T W E kind_of fees_present expected_calldata expected_deploy D_eqb H_eqb
+  Notation endblock := (endblock B S V D H T W E kind_of guards fees_present expected_calldata expected_deploy D_eqb H_eqb
                           tx_hash tx_data valset_at compass_present apply_effect on_error_proof).
   Notation mem_hash := (mem_hash H H_eqb).
   Notation find_msg := (find_msg B S T).
@@ -276,7 +280,7 @@ Section Proofs.
        (queue _ _ _ _ _ _ s' = queue _ _ _ _ _ _ s \/
         queue _ _ _ _ _ _ s' = remove_msg (m_id _ _ _ m) (queue _ _ _ _ _ _ s))).
   Proof.
-    intros s m env Hinv Hm. unfold Attest.attest_msg.
+    intros s m env Hinv Hm. unfold Attest.attest_msg. rewrite guards_full. cbn [g_processed g_compass g_verify full_guards andb].
     pose proof (inv_q _ Hinv) as Hq.
     assert (Hself : forall i, In i (ids (queue _ _ _ _ _ _ s)) ->
               In i (ids (queue _ _ _ _ _ _ s)) \/ next_id _ _ _ _ _ _ s <= i) by (intros; now left).
